@@ -277,12 +277,15 @@ func (route *ConsistentHashing) Add(dest *dest.Destination) {
 	route.addDestination(dest, consistentHashingConfigExtender)
 }
 
-func (route *baseRoute) delDestination(index int, extendConfig baseCfgExtender) error {
+func (route *baseRoute) delDestination(index int, extendConfig baseCfgExtender, minDests int) error {
 	route.Lock()
 	defer route.Unlock()
 	conf := route.config.Load().(Config)
 	if index >= len(conf.Dests()) {
 		return fmt.Errorf("Invalid index %d", index)
+	}
+	if len(conf.Dests()) <= minDests {
+		return fmt.Errorf("route %q needs at least %d destination(s), not removing", route.key, minDests)
 	}
 	conf.Dests()[index].Shutdown()
 	// the full slice expression forces append to copy: concurrent Dispatch calls may still be iterating over the old slice
@@ -293,11 +296,12 @@ func (route *baseRoute) delDestination(index int, extendConfig baseCfgExtender) 
 }
 
 func (route *baseRoute) DelDestination(index int) error {
-	return route.delDestination(index, baseConfigExtender)
+	return route.delDestination(index, baseConfigExtender, 0)
 }
 
 func (route *ConsistentHashing) DelDestination(index int) error {
-	return route.delDestination(index, consistentHashingConfigExtender)
+	// the hash ring needs at least one destination, Dispatch can't handle an empty one
+	return route.delDestination(index, consistentHashingConfigExtender, 1)
 }
 
 func (route *baseRoute) GetDestination(index int) (*dest.Destination, error) {
